@@ -161,3 +161,71 @@ def planar(ctx):
             ctx.oblige("C02/_UnconditionalPlanar/ld_inv", sub(lift(ldi)) == -log(absr(1 + z3.If(z >= 0, z3.RealVal(1), s) * gwuh)), [sub(c) for c in pil.cond] + inv + [z != 0], props, fn=Q + ".inverse_and_log_det", replay=rp,
                        cases=[("z_pos", z > 0), ("z_neg", z < 0)])
             ctx.control("C01/_UnconditionalPlanar/control/rt1_without_invertibility", vec_eq(back, x), [sub(c) for c in pil.cond] + [s > 0, gwuh > -1], props, fn=Q + ".inverse_and_log_det", cases=None)
+
+
+@family("planar/Planar", ["C01", "C02", "C03", "C13"])
+def planar_wrapper(ctx):
+    """Planar: every method delegates to the _UnconditionalPlanar built by get_planar from the SAME parameter vector (the stored one, or
+    the conditioner applied to the caller's condition): hence its round trips / log-dets are those of _UnconditionalPlanar"""
+    import z3 as _z3
+    from .abstract import TV, T
+    props = ["C01", "C02", "C03", "C13"]
+    PQ = "flowjax.bijections.planar.Planar"
+    c = _z3.Const("c", T)
+    for cname, cond in (("unconditional", None), ("conditional", TV(c))):
+        it = ctx.new_interp()
+        cls = it.repo_class(PQ)
+        dimv = SV(_z3.Int("dim"))
+        built = []
+
+        class PVec:
+            """the parameter vector (length 2 dim + 1): only slicing by dim is allowed"""
+
+            def __init__(self, src):
+                self.src = src
+
+            def __getitem__(self, idx):
+                return ("slice", self.src, idx)
+
+        class UP:
+            def __init__(self, w, u, bias, negative_slope=None):
+                self.args = (w, u, bias, negative_slope)
+                built.append(self)
+                self.calls = []
+
+            def _m(name):
+                def f(self, v, condition=None):
+                    self.calls.append((name, v, condition))
+                    return (name, self, v)
+                return f
+
+            transform, transform_and_log_det, inverse, inverse_and_log_det = _m("transform"), _m("transform_and_log_det"), _m("inverse"), _m("inverse_and_log_det")
+
+        it.global_overrides["flowjax.bijections.planar"] = {"_UnconditionalPlanar": UP}
+        stored = PVec("stored")
+        seen_cond = []
+
+        def conditioner(cc):
+            seen_cond.append(cc)
+            return PVec(("conditioner", cc))
+
+        o = Obj(cls, shape=(dimv,), cond_shape=None if cond is None else ("cond_dim",), params=stored if cond is None else None,
+                conditioner=None if cond is None else conditioner, negative_slope=SV(_z3.Real("negative_slope")))
+        argsets = []
+        for meth in ("transform", "transform_and_log_det", "inverse", "inverse_and_log_det"):
+            built.clear()
+            paths = it.explore(lambda meth=meth: method(cls, meth)(o, "point", cond))
+            p = single(paths, ctx, f"C01/Planar.{meth}[{cname}]/struct/straight_line", props, f"{PQ}.{meth}")
+            if p is None:
+                continue
+            ok = len(built) == 1 and p.value == (meth, built[0], "point")
+            ctx.oblige(f"C01/Planar.{meth}[{cname}]/post/delegates_to_the_same_named_method_of_get_planar", bool(ok), [], props, kind="struct", fn=f"{PQ}.{meth}", replay=dict(kind="simple", cls="Planar", vars={}))
+            if not ok:
+                continue
+            w, u, b, s = built[0].args
+            src = stored.src if cond is None else ("conditioner", cond)
+            same_src = all(isinstance(t, tuple) and t[0] == "slice" and t[1] == src for t in (w, u, b))
+            ctx.oblige(f"C03/Planar.{meth}[{cname}]/post/parameters_from_{'the_conditioner_at_the_callers_condition' if cond is not None else 'the_stored_vector'}", bool(same_src) and s is o.negative_slope, [], props, kind="struct", fn=f"{PQ}.get_planar", replay=dict(kind="simple", cls="Planar", vars={}))
+            argsets.append((meth, tuple(repr(t) for t in (w, u, b))))
+        ctx.oblige(f"C01/Planar[{cname}]/post/all_methods_build_the_same_planar_bijection", len(argsets) == 4 and len({a_ for _m, a_ in argsets}) == 1, [], props, kind="struct", fn=f"{PQ}.get_planar",
+                   note="how the parameter vector is laid out (weight / u / bias) is an implementation choice; it must be the same for transform and inverse")
